@@ -32,7 +32,7 @@ func init() {
 			}
 			nSys := len(gen.SysSentences(2, 1, fnF, fnG))
 			return &harness.Plan{
-				N: nSys + size(tier, 300000, 5000000),
+				N: nSys + size(tier, 300000, 8000000),
 				Setup: func(c *harness.Ctx) {
 					hooksOn()
 					src = newStrSource()
